@@ -3,11 +3,11 @@
    one Dykstra sweep the result is an output of the LAST projector (C15), and the tables show that in ctrsbox_pgd, ctrsbox_sfista
    and ctrsbox_linear the last projector is the trust-region ball around the centre and that the step handed back is
    dykstra(P, centre + d0) - centre; the regularised step handed to the main loop is replaced by zero when its predicted
-   reduction is negative (table).  Global optimality of the geometry step and the box clause of trsbox_linear are validated by
-   the oracle sweep (bisection oracle on the clipped ray), not proved. *)
+   reduction is negative (table).  [R] trsbox_linear / trsbox_geometry (regenerated) stay inside their box and ball for every input (MGeom, MGeomBall).
+   Global optimality of the geometry step is validated by the oracle sweep (bisection oracle on the clipped ray), not proved. *)
 From Coq Require Import ZArith List Bool String Lia Reals Lra.
-Require Import DV.Base.Prelude DV.Base.F64 DV.Base.OrdLaws DV.Spec.Schema DV.Lib.MSpec DV.Lib.MBook DV.Lib.MDyk DV.Lib.MBall DV.Lib.Tables.
-From G Require Import Gen_util Gen_model Gen_tables.
+Require Import DV.Base.Prelude DV.Base.F64 DV.Base.OrdLaws DV.Spec.Schema DV.Lib.MSpec DV.Lib.MBook DV.Lib.MDyk DV.Lib.MBall DV.Lib.MGeom DV.Lib.MGeomBall DV.Lib.Tables.
+From G Require Import Gen_util Gen_model Gen_trust_region Gen_tables.
 From P Require Import Char_model C15.
 Import ListNotations.
 
@@ -25,6 +25,50 @@ Proof.
   destruct (@C15_sweeps_and_last_projector ArithR P x0 mi tol x y cI n Hne H) as (_ & _ & Hz & _).
   destruct (Hz Hn) as [z Ez]. pose proof (Hlen z Ez) as Hl. rewrite Ez, Hlast. apply C13_ball_projector_lands_in_ball; auto.
 Qed.
+
+(* ---- the bound-constrained geometry solver: regenerated trsbox_geometry / trsbox_linear / ball_step ---- *)
+Lemma ball_step_eq `{A : Arith} : @py_trust_region_ball_step A = @s_ball_step A. Proof. reflexivity. Qed.
+Lemma trsbox_linear_eq `{A : Arith} : @py_trust_region_trsbox_linear A = @s_trsbox_linear A. Proof. reflexivity. Qed.
+Lemma trsbox_geometry_eq `{A : Arith} : @py_trust_region_trsbox_geometry A = @s_trsbox_geometry A. Proof. reflexivity. Qed.
+(* [R] whatever the linear solver returns lies in the box it was given, widened to contain [-ZT, ZT] (ZT = ZERO_THRESH = 1e-14) *)
+Theorem C13_linear_solver_stays_in_its_box : forall (g a b : list R) (Delta : R) (s : list R),
+  List.length a = List.length g -> List.length b = List.length g ->
+  @py_trust_region_trsbox_linear ArithR g a b Delta = Ok s ->
+  List.length s = List.length g /\
+  forall j, (0 <= j < lenZ g)%Z -> (Rmin (@getT ArithR a j) (- ZT) <= @getT ArithR s j <= Rmax (@getT ArithR b j) ZT)%R.
+Proof. intros g a b Delta s. rewrite (@trsbox_linear_eq ArithR). apply trsbox_linear_in_box. Qed.
+(* [R] the geometry step for bound constraints: when trsbox_geometry returns x (its two asserts passed: xbase is inside the box
+   up to ZT), every coordinate of x lies in [lower - 2 ZT, upper + 2 ZT], and in [lower - ZT, upper + ZT] when xbase is feasible *)
+Theorem C13_geometry_step_inside_the_box : forall (xbase g lower upper : list R) (c Delta : R) (x : list R),
+  List.length g = List.length xbase -> List.length lower = List.length xbase -> List.length upper = List.length xbase ->
+  @py_trust_region_trsbox_geometry ArithR xbase c g lower upper Delta = Ok x ->
+  List.length x = List.length xbase /\
+  forall j, (0 <= j < lenZ xbase)%Z ->
+    (@getT ArithR lower j - 2 * ZT <= @getT ArithR x j <= @getT ArithR upper j + 2 * ZT)%R /\
+    ((@getT ArithR lower j <= @getT ArithR xbase j <= @getT ArithR upper j)%R ->
+     (@getT ArithR lower j - ZT <= @getT ArithR x j <= @getT ArithR upper j + ZT)%R).
+Proof.
+  intros xbase g lower upper c Delta x Hg Hl Hu H. rewrite (@trsbox_geometry_eq ArithR) in H.
+  destruct (trsbox_geometry_in_box xbase g lower upper c Delta x Hg Hl Hu H) as (Hlen & Hbox). split; [exact Hlen|].
+  intros j Hj. destruct (Hbox j Hj) as (A1 & A2 & B). pose proof ZT_pos as Hz. revert B. unfold Rmin, Rmax.
+  destruct (Rle_dec _ _); destruct (Rle_dec _ _); intros B; split; intros; lra.
+Qed.
+(* [R] ... and in the trust region: |s| <= Delta for the linear solver, |x - xbase| <= Delta for the geometry step, for every input
+   (no sign condition on Delta is needed: the starting point 0 has norm 0 <= Delta^2) *)
+Theorem C13_linear_solver_stays_in_the_ball : forall (g a b : list R) (Delta : R) (s : list R),
+  List.length a = List.length g -> List.length b = List.length g ->
+  @py_trust_region_trsbox_linear ArithR g a b Delta = Ok s -> (ssq s <= Delta * Delta)%R.
+Proof. intros g a b Delta s. rewrite (@trsbox_linear_eq ArithR). apply trsbox_linear_in_ball. Qed.
+Theorem C13_geometry_step_inside_the_ball : forall (xbase g lower upper : list R) (c Delta : R) (x : list R),
+  List.length g = List.length xbase -> List.length lower = List.length xbase -> List.length upper = List.length xbase ->
+  @py_trust_region_trsbox_geometry ArithR xbase c g lower upper Delta = Ok x -> (ssq (vsub x xbase) <= Delta * Delta)%R.
+Proof. intros xbase g lower upper c Delta x. rewrite (@trsbox_geometry_eq ArithR). apply trsbox_geometry_in_ball. Qed.
+(* the definitions run: on a concrete binary64 instance the regenerated solver returns a point, inside the box *)
+Example C13_geometry_runs :
+  match @py_trust_region_trsbox_geometry ArithF64 (vof [0; 0]%Z) (of_bits 4607182418800017408) (vof [4607182418800017408; 13835058055282163712]%Z)
+          (vof [13830554455654793216; 13830554455654793216]%Z) (vof [4607182418800017408; 4607182418800017408]%Z) (of_bits 4611686018427387904) with
+  | Ok x => Z.eqb (lenZ x) 2 | Err _ => false end = true.
+Proof. vm_compute. reflexivity. Qed.
 
 (* ---- tables ---- *)
 Open Scope string_scope.
@@ -54,5 +98,9 @@ Theorem C13_geometry_returns_better_of_two :
 Proof. vm_compute. reflexivity. Qed.
 
 Print Assumptions C13_ball_projector_lands_in_ball.
+Print Assumptions C13_linear_solver_stays_in_its_box.
+Print Assumptions C13_geometry_step_inside_the_box.
+Print Assumptions C13_linear_solver_stays_in_the_ball.
+Print Assumptions C13_geometry_step_inside_the_ball.
 Print Assumptions C13_projected_step_within_radius.
 Print Assumptions C13_trust_region_ball_is_projected_last.
